@@ -147,7 +147,9 @@ Proof. cbv zeta. repeat split; vm_compute; reflexivity. Qed.
 (* ---- the graph builder's step: appending the three total nodes -------------------------------------
    GraphBuilder.build_model calls _add_model_log_lik_node, _add_model_log_prior_node,
    _add_model_log_prob_node: three Calc(_reduced_sum, *inputs) nodes whose inputs are selected from
-   the nodes / variables gathered so far.  A node of the user's graph carries an optional tag
+   the nodes / variables gathered so far - AFTER the auto-transform loop, i.e. [tg] below is the final
+   user graph (with the `<name>_transformed` variables and their distribution nodes, without the
+   detached original ones).  A node of the user's graph carries an optional tag
    "is an instance of Dist" with its class and the flags of its variable. *)
 Section Builder.
 Variable F : Type.
